@@ -19,7 +19,7 @@ def _register(opcode, variant, shards, expect):
     def ob(v, _opcode=opcode, _variant=variant):
         treeops.step(v, _opcode, _variant, "names")
     ob.__doc__ = "One step of %s on universe %s: sibling names stay unique, names non-empty, ids canonical." % (opcode, variant)
-    obligation("C04", name, shards=shards, budget={"quick": 240, "thorough": 900}, expect=expect, bounds=BOUNDS)(ob)
+    obligation("C04", name, shards=shards, budget={"quick": 600, "thorough": 1800}, expect=expect, bounds=BOUNDS)(ob)
 
 
 for (_op, _var, _sh, _exp) in PLAN:
